@@ -98,7 +98,7 @@ def nontrivial(case):
 def check(rep, tier, seed, driver):
     py2v_arch.report(rep)
     rng = random.Random(seed)
-    n = 300 if tier == "quick" else 6000
+    n = 300 if tier == "quick" else 3500
     rep.rule = ("(a) CMA-MAE GridArchive/CVTArchive(kd,brute,chunk), float32/float64, learning rates {0,1/4,1/2,3/4,1,0.1,0.3}, step-wise "
                 "simulation with objectives at/around live thresholds; (b) exact stream: learning rate 1/2, dyadic objectives, add_single "
                 "only, whole-history bit-exact comparison; non-trivial = CMA-MAE history with a batch whose members share a measure point and "
